@@ -82,7 +82,12 @@ bool polyline::set(const transform &tr, span<const value_store> src)
 	
 	// generate parts data
 	long max = maxsize(src, traits);
-	if (!max || !_vis.set(max)) {
+	// no data at all, do not keep parts of an earlier curve
+	if (max <= 0) {
+		clear();
+		return false;
+	}
+	if (!_vis.set(max)) {
 		return false;
 	}
 	const value_store *val = src.begin();
